@@ -26,9 +26,11 @@ META = {
                   "inspection of the face list; with sorting on vertex_to_corners is a rotationally ordered closed ring (interior "
                   "vertex) / open fan from border to border (border vertex); with sorting off vertex_to_corners / vertex_to_vertices "
                   "are the corner / neighbour sets; boundary/interior edges and vertices partition the ids by 'a side has no face'. "
-                  "PARTIAL: sorted vertex_to_vertices is proved to be a rearrangement of the neighbours, its order (and the derived "
-                  "vertex_to_faces / vertex_to_edges / face_to_faces / face_to_corners / face_to_edges / common_edge lists) is "
-                  "covered by query-order independence and by the correspondence batches + oracle, not by a spec theorem. The model "
+                  "With sorting on vertex_to_vertices is proved to be the matching vertex ring (border neighbour first, then the "
+                  "half-edge targets of the corner ring); vertex_to_faces / vertex_to_edges / face_to_corners / face_to_faces / "
+                  "face_to_edges are proved element by element. NOT given a spec theorem (covered by query-order independence, "
+                  "the correspondence batches and the oracle only): common_edge, in_face_index, opposite_face with indices, and "
+                  "the uncached reads face_to_vertices / edge_to_vertices / other_edge_end. The model "
                   "is tied to the code by kernel-evaluated correspondence batches: generated manifold surfaces x random scripts of "
                   "40-60 public queries on a fresh mesh, every answer compared (rings up to rotation, unordered answers as sets).",
     "level_note": "Trusted: Coq kernel + vm_compute; the surface.py/linear.py translator (vf/translate/c01.py); the correspondence "
@@ -195,10 +197,35 @@ def gen_case(rng, max_faces):
     return dict(mesh, sort=rng.random() < 0.65, script=script, info=info)
 
 
+def small_meshes(nv=5, max_faces=4):
+    """All oriented manifold triangle surfaces with <= max_faces faces over nv labelled vertices, each face stored with its
+    smallest vertex first (support sweep of the thorough tier; bounded, never the theorem)."""
+    import itertools
+    tris = []
+    for a, b, c in itertools.combinations(range(nv), 3):
+        tris += [[a, b, c], [a, c, b]]
+    out = []
+    for k in range(1, max_faces + 1):
+        for sub in itertools.combinations(tris, k):
+            faces = [list(t) for t in sub]
+            if G.validate(nv, faces) is None:
+                out.append({"nv": nv, "faces": faces})
+    return out
+
+
+def sweep_case(rng, mesh, sort):
+    nv, faces = mesh["nv"], mesh["faces"]
+    script = G.gen_script(rng, mesh, length=10)
+    script = [q for q in script if q[0] not in ("clear", "clear_boundary_data")]
+    script += [[nm, v] for v in range(nv) for nm in ("vertex_to_corners", "vertex_to_vertices", "vertex_to_faces", "is_vertex_on_border")]
+    rng.shuffle(script)
+    return dict(mesh, sort=sort, script=script, info={"seed_kind": "exhaustive<=4tri/5v", "size": "tiny", "edits": []})
+
+
 def run(ctx):
     quick = ctx.tier == "quick"
-    n_cases = 600 if quick else 9000
-    max_faces = 80 if quick else 160
+    n_cases = 600 if quick else 6000
+    max_faces = 80 if quick else 140
     ctx.rule = ("generated oriented manifold polygon surfaces (seeds triangle/quad/polygon/tetra/octahedron/cube/grid/"
                 "triangulated grid/annulus/torus/unions, random manifold-preserving edits, random renumbering, face rotation, "
                 "face shuffle) x a fresh mesh x a random script of 40-60 public queries with config.sort_neighborhoods on/off. "
@@ -223,7 +250,14 @@ def run(ctx):
             if f.endswith(".json"):
                 corpus.append(json.load(open(os.path.join(cdir, f))))
     cases = corpus + [gen_case(ctx.rng, max_faces) for _ in range(n_cases)]
-    ctx.log("generated %d cases (+%d corpus)" % (n_cases, len(corpus)))
+    if not quick:
+        sm = small_meshes()
+        ctx.notes.append("support sweep (bounded, not the theorem): all %d oriented manifold triangle surfaces with <= 4 faces "
+                         "over 5 labelled vertices, each with sorting on and off" % len(sm))
+        for k, msh in enumerate(sm):
+            cases.append(sweep_case(ctx.rng, msh, k % 2 == 0))
+            cases.append(sweep_case(ctx.rng, msh, k % 2 == 1))
+    ctx.log("generated %d cases (%d random, %d corpus)" % (len(cases), n_cases, len(corpus)))
     results = run_impl_cases(cases)
     ctx.log("implementation driven on all cases")
 
